@@ -45,6 +45,7 @@ func moduleFuncs() map[string]flamingo.TemplateFunc {
 		"trim":       &templatefunctions.TrimFunc{},
 		"escapeHtml": &templatefunctions.EscapeHTMLFunc{},
 		"parseInt":   &templatefunctions.ParseInt{},
+		"vpIdent":    plainFunc(func(x interface{}) interface{} { return x }),
 	}
 }
 
